@@ -11,8 +11,6 @@ open GIV GIV.Txtar
 
 /-! ### regenerated facts as hypotheses -/
 
-def dotdotSlash : Bytes := [DOT, DOT, SEP]
-
 /-- what Write's rejection test (on the cleaned name) guarantees. -/
 class FRej : Prop where
   /-- a name that passes is not rooted, not ".", not "..", and does not start with "../" -/
@@ -469,5 +467,139 @@ theorem writeFiles_escape_error [FRej] (dir : Path) (fs : FS) (files : List File
       rcases hf with rfl | hf
       · rw [writeOne_rejected (escapes_rejected hesc)] at hres; cases hres
       · exact ⟨f, hf, hesc⟩
+
+/-- everything new is a directory or the file of one of the entries, holding that entry's data. -/
+def FromEntry (dir : Path) (files : List File) (q : Path) (n : Node) : Prop :=
+  n = .dir ∨ ∃ f ∈ files, q = joinPath dir (cleanPath f.name) ∧ n = .file f.data
+
+theorem writeOne_new [FRej] [FOpen] (dir : Path) (fs : FS) (f : File) :
+    Step (FromEntry dir [f]) fs (writeOne dir fs f).2 := by
+  cases hrej : Gen.Fsx.writeRejects (cleanPath f.name) with
+  | true => rw [writeOne_rejected hrej]; exact Step.refl _ _
+  | false =>
+    obtain ⟨ns, hne, hns, hs, _⟩ := accepted_shape hrej
+    refine (writeOne_accepted (dir := dir) (fs := fs) hrej hs hns hne).1.mono ?_
+    intro q n h
+    rcases h with ⟨h, _⟩ | ⟨h1, h2⟩
+    · exact Or.inl h
+    · exact Or.inr ⟨f, by simp, by rw [joinPath_normal dir hs hns]; exact h1, h2⟩
+
+theorem writeFiles_new [FRej] [FOpen] (dir : Path) (fs : FS) (files : List File) :
+    Step (FromEntry dir files) fs (writeFiles dir fs files).2 := by
+  induction files generalizing fs with
+  | nil => exact Step.refl _ _
+  | cons f rest ih =>
+    unfold writeFiles
+    have h1 : Step (FromEntry dir (f :: rest)) fs (writeOne dir fs f).2 :=
+      (writeOne_new dir fs f).mono (fun q n h => by
+        rcases h with h | ⟨g, hg, h⟩
+        · exact Or.inl h
+        · simp only [List.mem_singleton] at hg
+          subst hg
+          exact Or.inr ⟨g, by simp, h⟩)
+    rcases hres : writeOne dir fs f with ⟨e, fs1⟩
+    rw [hres] at h1
+    cases e with
+    | some e => exact h1
+    | none =>
+      refine h1.trans ((ih fs1).mono ?_)
+      intro q n h
+      rcases h with h | ⟨g, hg, h⟩
+      · exact Or.inl h
+      · exact Or.inr ⟨g, List.mem_cons_of_mem _ hg, h⟩
+
+/-! ### the abstract file system stays a tree -/
+
+/-- every entry's parent is a directory (so a regular file has nothing beneath it). -/
+def TreeFS (fs : FS) : Prop := ∀ (q : Path) (n : Node), q ≠ [] → fs.get q = some n → fs.get q.dropLast = some .dir
+
+theorem dropLast_ne_self {p : Path} (h : p ≠ []) : p.dropLast ≠ p := by
+  intro e
+  have := congrArg List.length e
+  have hl := len_pos h
+  rw [List.length_dropLast] at this
+  omega
+
+theorem treeFS_set {fs : FS} {p : Path} {n : Node} (hwf : TreeFS fs) (hp : p ≠ [])
+    (hpar : fs.get p.dropLast = some .dir)
+    (hkind : fs.get p = none ∨ ((∃ d, fs.get p = some (.file d)) ∧ ∃ d', n = .file d')) :
+    TreeFS (fs.set p n) := by
+  intro q m hq hget
+  have hnotdir : fs.get p ≠ some .dir := by
+    rcases hkind with h | ⟨⟨d, h⟩, _⟩ <;> rw [h] <;> simp
+  by_cases e : q = p
+  · subst e
+    rw [get_set_ne fs n (dropLast_ne_self hp)]; exact hpar
+  · rw [get_set_ne fs n e] at hget
+    have hparq := hwf q m hq hget
+    have : q.dropLast ≠ p := by
+      intro e2; rw [e2] at hparq; exact hnotdir hparq
+    rw [get_set_ne fs n this]; exact hparq
+
+theorem treeFS_mkdir {fs : FS} (hwf : TreeFS fs) (p : Path) : TreeFS (mkdir fs p).2 := by
+  unfold mkdir
+  cases h1 : fs.get p with
+  | some x => exact hwf
+  | none =>
+    cases h2 : fs.get p.dropLast with
+    | none => exact hwf
+    | some x =>
+      cases x with
+      | dir => exact treeFS_set hwf (ne_nil_of_get_none h1) h2 (Or.inl h1)
+      | file d => exact hwf
+
+theorem treeFS_mkdirAllR {fs : FS} (hwf : TreeFS fs) (r : List Bytes) : TreeFS (mkdirAllR fs r).2 := by
+  induction r generalizing fs with
+  | nil => exact hwf
+  | cons c up ih =>
+    unfold mkdirAllR
+    cases h1 : fs.get (c :: up).reverse with
+    | some x => cases x <;> exact hwf
+    | none =>
+      have := ih hwf
+      rcases hres : mkdirAllR fs up with ⟨e, fs1⟩
+      rw [hres] at this
+      cases e with
+      | some e => exact this
+      | none => exact treeFS_mkdir this _
+
+theorem treeFS_writeOne [FOpen] {fs : FS} (hwf : TreeFS fs) (dir : Path) (f : File) :
+    TreeFS (writeOne dir fs f).2 := by
+  cases hrej : Gen.Fsx.writeRejects (cleanPath f.name) with
+  | true => rw [writeOne_rejected hrej]; exact hwf
+  | false =>
+    unfold writeOne
+    simp only [hrej, Bool.false_eq_true, if_false, FOpen.mkdirFirst, if_true]
+    generalize joinPath dir (cleanPath f.name) = full
+    have h1 : TreeFS (mkdirAll fs full.dropLast).2 := treeFS_mkdirAllR hwf _
+    rcases hres : mkdirAll fs full.dropLast with ⟨e, fs1⟩
+    rw [hres] at h1
+    cases e with
+    | some e => exact h1
+    | none =>
+      simp only []
+      rcases openFile_excl fs1 full with ⟨hnone, hpar, hopen⟩ | ⟨_, e, hopen⟩
+      · rw [hopen]
+        simp only []
+        have hne := ne_nil_of_get_none hnone
+        rw [writeData_fresh _ _ hne]
+        have h2 : TreeFS (fs1.set full (.file [])) := treeFS_set h1 hne hpar (Or.inl hnone)
+        apply treeFS_set h2 hne
+        · rw [get_set_ne _ _ (dropLast_ne_self hne)]; exact hpar
+        · exact Or.inr ⟨⟨[], get_set_self _ _ hne⟩, ⟨_, rfl⟩⟩
+      · rw [hopen]; exact h1
+
+theorem treeFS_writeFiles [FOpen] {fs : FS} (hwf : TreeFS fs) (dir : Path) (files : List File) :
+    TreeFS (writeFiles dir fs files).2 := by
+  induction files generalizing fs with
+  | nil => exact hwf
+  | cons f rest ih =>
+    unfold writeFiles
+    have h1 := treeFS_writeOne hwf dir f
+    rcases hres : writeOne dir fs f with ⟨e, fs1⟩
+    rw [hres] at h1
+    cases e with
+    | some e => exact h1
+    | none => exact ih h1
 
 end GIV.Fsx
